@@ -7,6 +7,9 @@
 -/
 import Hw.Io.CalcLemmas
 import Hw.Io.CalcStdin
+import Hw.Io.CalcAttrLemmas
+import Hw.Io.CalcAttrRefine
+import Hw.Io.CalcAttrBest
 import Hw.Bitmap.Order
 import Hw.Bitmap.CompareFirst
 namespace Hw.Props.C20
@@ -366,5 +369,119 @@ example : optScan [str "all", str "--foo"] = .fails ∧ optScan [str "--cof"] = 
 example : numberArg (str "abc") = some none ∧ numberArg (str "3x") = some none ∧ numberArg (str "+3") = some (some 3) := by decide
 example : splitMode (str "~core:0") = (.clr, str "core:0") := by decide
 example : (Bitmap.singlify (ofMask 0x18)).mem 3 = true := by decide
+
+/-! ### B9: `--cpukind`, `--default-nodes`, `--local-memory` (model: Hw/Io/CalcAttr.lean) -/
+
+/-- the `--cpukind` filter is the intersection with the kind's cpuset (no `--cpukind`: nothing changes) -/
+theorem C20_calc_cpukind_filter (k : Option Nat) (S : Bitmap) (i : Nat) :
+    (cpusetAfterKind k S).mem i = (S.mem i && (match k with | none => true | some m => m.testBit i)) :=
+  mem_cpusetAfterKind k S i
+
+/-- the cpuset of `--cpukind <n>` is the cpuset `hwloc_cpukinds_get_info` reports for kind `n` (empty beyond the last kind), the one
+    of `--cpukind <name>=<value>` is the union of the kinds carrying that info pair; an index wins over a pair -/
+theorem C20_calc_cpukind_set (x : Extra) (ks : KSel) :
+    kindSet x ks = (match ks.index, ks.info with
+      | some n, _ => some (((x.kinds[n]?).map (·.cpuset)).getD 0)
+      | none, some (nm, vl) => some ((x.kinds.filter (kindMatches nm vl)).foldl (fun acc kd => acc ||| kd.cpuset) 0)
+      | none, none => none) := by
+  cases ks with
+  | mk idx info =>
+    cases idx with
+    | some n => cases h : x.kinds[n]? <;> simp [kindSet, h]
+    | none => cases info with
+      | none => rfl
+      | some p => rfl
+
+/-- the filter commutes with the operator fold: hwloc-calc folds the location sets first (C20_calc_fold) and intersects ONCE in
+    hwloc_calc_output; the result has the members of the fold of the filtered location sets from the filtered start set, for all
+    four operators and every location list -/
+theorem C20_calc_cpukind_commutes_fold (K acc : Bitmap) (l : List (Mode × Bitmap)) (i : Nat) :
+    ((foldModes acc l).and K).mem i = (foldModes (acc.and K) (l.map (fun p => (p.1, p.2.and K)))).mem i :=
+  foldModes_and K i l acc
+
+/-- the exact order inside hwloc_calc_output: cpuset ∩ kind and nodeset ∩ default nodes FIRST, then --no-smt, --single and the output
+    mode (`output` of Hw.Io.Calc), whenever no cpukind / memorytier pseudo level and no --local-memory* / --best-memattr is given -/
+theorem C20_calc_attr_filters_first (c : Ctx) (x : Extra) (k : Option Nat) (s : St) (xs : XSt) (cfg : OutCfg) (cpuset nodeset : Bitmap)
+    (hl : xs.localMem = false) :
+    outputX c x k s xs cfg {} cpuset nodeset = output c s cfg (cpusetAfterKind k cpuset) (nodesetAfterDefault c.d xs nodeset) :=
+  outputX_eq_output c x k s xs cfg cpuset nodeset hl
+
+/-- `--default-nodes` intersects the nodeset with the C14 default nodeset of the topology (`Hw.MemAttrs.defaultNodeset`, flags 0) -/
+theorem C20_calc_default_nodes (d : Dump) (xs : XSt) (N : Bitmap) (i : Nat) :
+    MemAttrs.defaultNodeset (envOf d) 0 = .ok (defaultNodes d) ∧
+    (nodesetAfterDefault d xs N).mem i = (N.mem i && (!xs.defaultNodes || (defaultNodes d).testBit i)) :=
+  ⟨defaultNodes_eq d, mem_nodesetAfterDefault d xs N i⟩
+
+/-- `--local-memory[-flags f]` starts from exactly the NUMA nodes the flags select for the CPUSET location — the C14 model of
+    `hwloc_get_local_numanode_objs` (`localNodes_cpuset_spec`, `matchLocal_iff`) on the NUMA level of the dump, in logical order —
+    and from nothing (only the newline is printed) when the flags have a bit above 4 -/
+theorem C20_calc_local_memory (d : Dump) (cs flags : Nat) :
+    (flags < 8 →
+      localNumaObjs d cs flags = some ((numaObjs d).filter (fun o => MemAttrs.matchLocal flags cs (maObj o))) ∧
+      MemAttrs.localNodes (envOf d) (.cpuset cs) flags (numaObjs d).length false =
+        .ok (((numaObjs d).filter (fun o => MemAttrs.matchLocal flags cs (maObj o))).length,
+             ((numaObjs d).filter (fun o => MemAttrs.matchLocal flags cs (maObj o))).map maObj)) ∧
+    (8 ≤ flags → localNumaObjs d cs flags = none) :=
+  ⟨localNumaObjs_spec d cs flags, localNumaObjs_badflags d cs flags⟩
+
+/-- the widened option loop is the old one wherever the old one goes through (the four memory options made the old one `skip`) -/
+theorem C20_calc_attr_loop_extends (c : Ctx) (argv : List Bytes) (s s' : St) (xs : XSt) (h : argLoop c s argv = .ok s') :
+    argLoopX c s xs argv = .ok (s', xs) :=
+  argLoopX_of_argLoop c argv.length argv s s' xs (Nat.le_refl _) h
+
+/-- conservative extension: without `--cpukind`, without the four memory options (the old loop goes through) and without the
+    cpukind / memorytier pseudo levels, the widened model `calcMainX` is the old `calcMain` whatever CPU kinds and memory attribute
+    values the topology has — C20_calc_fold … C20_calc_stdin_line_eq_cmdline keep describing what the driver answers -/
+theorem C20_calc_attr_conservative (d : Dump) (x : Extra) (argv : List Bytes) (stdin : Bytes) (s : St)
+    (h0 : ∀ a, argv.head? = some a → isOpt topoOpts a = false)
+    (hs : argLoop (mkCtx d) {} argv = .ok s)
+    (hn : pseudoOf s.numberOf = none) (hi : pseudoOf s.intersect = none) :
+    calcMainX d x argv stdin = calcMain d argv stdin :=
+  calcMainX_eq_calcMain d x argv stdin s h0 hs hn hi
+
+/-- non-vacuity: `-q -N numa` (stdin mode) meets the hypotheses -/
+example : (∀ a, [str "-q", str "-N", str "numa"].head? = some a → isOpt topoOpts a = false) ∧
+    (match argLoop (mkCtx exDump) {} [str "-q", str "-N", str "numa"] with
+     | .ok s => pseudoOf s.numberOf == none && pseudoOf s.intersect == none
+     | .error _ => false) = true := by
+  refine ⟨?_, by decide⟩
+  intro a h; cases h; decide
+
+/-- `--best-memattr <attr>` for an attribute without initiator, when at least one local node has a value: the filter is exactly
+    the set of os_indexes of the local nodes whose value is the best one (highest for HIGHER_FIRST, lowest otherwise; ties are all
+    kept), whatever the DEFAULT / STRICT flags -/
+theorem C20_calc_best_memattr_values (a : XAttr) (nodes : List Obj) (dflt strict : Bool) (cs : Nat) (inf : Bool) (dns : Nat)
+    (hni : a.flags.testBit 2 = false) (p : Nat × Nat) (r : List (Nat × Nat)) (hv : valuePairs a nodes = p :: r) :
+    bestNodeFilter a dflt strict cs inf dns nodes = (bestValueLoop a nodes).2 ∧
+    (∃ q ∈ valuePairs a nodes, q.2 = (bestValueLoop a nodes).1) ∧
+    (∀ q ∈ valuePairs a nodes, asGood (a.flags.testBit 0) (bestValueLoop a nodes).1 q.2) ∧
+    (∀ j, (bestValueLoop a nodes).2.testBit j = true ↔ ∃ q ∈ valuePairs a nodes, q.1 = j ∧ q.2 = (bestValueLoop a nodes).1) := by
+  have inv := bestFold_spec (a.flags.testBit 0) p r
+  rw [← hv, ← bestValueLoop_eq] at inv
+  refine ⟨?_, inv.attained, inv.best, inv.set⟩
+  unfold bestNodeFilter
+  have hnz : ((bestValueLoop a nodes).2 != 0) = true := by simpa using inv.nz
+  simp only [hni, Bool.false_eq_true, if_false, hnz, if_true]
+
+/-- non-vacuity: two nodes with values 5 and 7 under a HIGHER_FIRST attribute: the second one is kept -/
+example : bestFold true (0, 0) [(0, 5), (1, 7), (2, 7)] = (7, 6) := by decide
+
+/-- non-vacuity / tests on `core:2 pu:1` with two registered kinds {PU0} (CoreType=big) and {PU1}, and a `Speed` attribute -/
+def exExtra : Extra :=
+  { kinds := [⟨1, 0, [(str "CoreType", str "big")]⟩, ⟨2, 1, []⟩],
+    attrs := [⟨str "Capacity", 1, [(6, 0)], []⟩, ⟨str "Locality", 2, [(6, 2)], []⟩, ⟨str "Bandwidth", 5, [], [(6, some [(.cpuset 3, 10)])]⟩] }
+example : calcMainX exDump exExtra [str "--cpukind", str "1", str "all"] [] = .exit 0 (some (str "0x00000002\n")) := by decide
+example : calcMainX exDump exExtra [str "--cpukind", str "CoreType=big", str "all"] [] = .exit 0 (some (str "0x00000001\n")) := by decide
+example : calcMainX exDump exExtra [str "--cpukind", str "7", str "all"] [] = .exit 0 (some (str "0x0\n")) := by decide
+example : calcMainX exDump exExtra [str "--cpukind", str "x", str "all"] [] = .exit 1 (some []) := by decide
+example : calcMainX exDump exExtra [str "-I", str "cpukind", str "--oo", str "pu:1"] [] = .exit 0 (some (str "cpukind:1\n")) := by decide
+example : calcMainX exDump exExtra [str "--local-memory", str "pu:0"] [] = .exit 0 (some (str "0\n")) := by decide
+example : calcMainX exDump exExtra [str "--local-memory-flags", str "smaller", str "pu:0"] [] = .exit 0 (some (str "\n")) := by decide
+example : calcMainX exDump exExtra [str "--best-memattr", str "bandwidth,strict", str "--oo", str "pu:0"] [] = .exit 0 (some (str "NUMANode:0\n")) := by decide
+example : calcMainX exDump exExtra [str "--best-memattr", str "nosuch", str "pu:0"] [] = .exit 1 (some []) := by decide
+example : calcMainX exDump exExtra [str "-n", str "--default-nodes", str "all"] [] = .exit 0 (some (str "0x00000001\n")) := by decide
+example : (parseFlags localFlagTable (str "larger|flag_all")).toOption = some (some 5) ∧ (parseFlags localFlagTable (str "all")).toOption = some none ∧ (parseFlags localFlagTable (str "locality")).toOption = some none ∧
+    (parseFlags localFlagTable (str "ALL$")).toOption = some (some 4) ∧ (parseFlags localFlagTable (str "none")).toOption = some (some 0) := by decide
+example : (foldModes Bitmap.alloc [(.add, ofMask 0x0f), (.clr, ofMask 0x03), (.xor, ofMask 0x18)]).mem 4 = true := by decide
 
 end Hw.Props.C20
